@@ -17,11 +17,19 @@ PLAN = dict(
              "print/exit arguments, depth-40/60 nesting, shadowing across chiralities, inputs outside the precondition, inputs on "
              "which focus panics).  Non-trivial (nt) = focusing created at least one fresh binder; distinct = distinct (program, "
              "argument tuples) inputs.  Tags: origin (hand/file/gen + mutation), pre/nopre (precondition of the theorems), panic, "
-             "size bucket of the focused program.",
+             "size bucket of the focused program; thm-static / thm-run / thm-none = which preservation theorem covers the case "
+             "(static guard / clash-free runs / none: nocs, clash).",
         explanation="theorems (Props/C03.v): for every program satisfying the boolean precondition, focus(uniquify p) returns and "
                     "unique_check holds (binders pairwise distinct along every path, distinct from free names, fresh ids above the "
                     "input max_id, output max_id bounds every id); no panic on any program of well-typed shape; shadowing lemmas of "
-                    "subst_sim; two refutation witnesses showing the precondition is necessary.  Correspondence: the Gallina models of "
+                    "subst_sim; two refutation witnesses showing the precondition is necessary.  Semantic preservation (round 2): "
+                    "uniquify preserves the observation for every fuel (alpha-equivalence, lock-step); `bind`/`focus` simulate the Core "
+                    "machine for every construct (operators nested to any depth with effects in operands, xtor/call/ifc/print/exit "
+                    "arguments, every arm of Cut::focus, mu/mu~ by value and by name, case/cocase, calls); composed: Prog::focus "
+                    "reproduces every defined run of its input, prints in order, under cs_prog (chirality-consistent scoping) and "
+                    "absence of kind clashes, guaranteed statically by static_ok = the Core type checker tc_prog (typing of machine "
+                    "states is preserved and excludes clashes) or a syntactic guard sg_prog, or assumed for the run; the statement "
+                    "without such hypotheses is refuted by an ill-typed witness.  Correspondence: the Gallina models of "
                     "Prog::uniquify and Prog::focus agree with the Rust code on every case (panic messages included); on the Rust "
                     "output the executable property (uniquified_check, unique_check, output reads as FsProg) is evaluated for every "
                     "input inside the precondition, and the observable behaviour (prints in order, exit value) of the input on the Core "
@@ -31,8 +39,9 @@ PLAN = dict(
             "usize overflow of max_id is not modelled (ids are unbounded N)",
             "semantic preservation and order of effects are CHECKED on every case (run_core on the input vs run_fs on the Rust "
             "output, two argument tuples per program, source fuel 20000 / target fuel 400000 transitions; cases whose source run "
-            "is stuck or out of fuel give no verdict) but proved only for the fragment of C03_focus_preserves_partial (straight-line "
-            "integer code without mu/data/codata/calls)",
+            "is stuck or out of fuel give no verdict); proved for every program that is chirality-consistently scoped (cs_prog) and "
+            "free of kind clashes (static_ok: typed by tc_prog or inside a guard sg_prog; or clash_free_prog on the run); "
+            "the coverage of each case is reported (tags thm-static / thm-run / thm-none, typed / untyped)",
             "the reference machine Sem/CoreSem.v (branch c02) fixes the evaluation order of unfocused arguments",
             "well-typedness enters only through the shape predicate focus_wf (no Literal/Op consumer, no xtor-xtor or op-destructor cut)",
         ],
